@@ -38,8 +38,9 @@ type op struct {
 }
 
 type truth struct {
-	Authn bool   `json:"authn"`
-	D     []bool `json:"d"`
+	Authn  bool   `json:"authn"`
+	Stored bool   `json:"stored"` // revoked token: asked with its stored TokenInfo (enabled = false)
+	D      []bool `json:"d"`
 }
 
 type initState struct {
@@ -297,6 +298,17 @@ func (r *replay) exec(o op) error {
 		err = rm.UpdateOrganization(bg, r.orgID[o.A], &auth.UpdateOrganizationRequest{Enabled: &en})
 	case "DeleteOrg":
 		err = rm.DeleteOrganization(bg, r.orgID[o.A])
+	case "ReseedOrg":
+		// upgrade seed: the cluster applies CreateOrganization for the NAME of a locally created
+		// organization under a different (FSM-stamped) id; called as the FSM callback calls it
+		if r.mode != "mixed" {
+			return fmt.Errorf("ReseedOrg outside mixed mode")
+		}
+		now := time.Now().UnixNano()
+		newID := r.orgID[o.A] + 1000
+		err = rm.ApplyCreateOrganization(auth.ClusterOrganizationEntry{ID: newID, Name: o.A, Description: "verif",
+			CreatedAtUnixNano: now, UpdatedAtUnixNano: now, Enabled: true})
+		r.orgID[o.A] = newID
 	case "CreateTeam":
 		var x *auth.Team
 		if x, err = rm.CreateTeam(bg, r.orgID[o.B], &auth.CreateTeamRequest{Name: o.A}); err == nil {
@@ -352,8 +364,9 @@ func (r *replay) exec(o op) error {
 }
 
 type answers struct {
-	authn bool
-	d     [3][nReq]bool // first single call, repeated single call, batch
+	authn  bool
+	stored bool
+	d      [3][nReq]bool // first single call, repeated single call, batch
 }
 
 func boolStr(b bool) string {
@@ -372,8 +385,16 @@ func (r *replay) round(batchFirst bool) (cached map[string]*answers, fresh map[s
 	infos := map[string]*auth.TokenInfo{}
 	for _, t := range []string{"t1", "t2"} {
 		ti := am.VerifyToken(r.tokVal[t])
-		infos[t] = ti
 		cached[t] = &answers{authn: ti != nil}
+		if ti == nil {
+			// a revoked token no longer authenticates, but its stored TokenInfo (enabled = false) can
+			// still reach CheckPermission (token administration paths read it with GetTokenByID)
+			if si, err := am.GetTokenByID(r.tokID[t]); err == nil && si != nil && !si.Enabled {
+				ti = si
+				cached[t].stored = true
+			}
+		}
+		infos[t] = ti
 	}
 	single := func(pass int) {
 		for _, t := range []string{"t1", "t2"} {
@@ -425,10 +446,14 @@ func (r *replay) round(batchFirst bool) (cached map[string]*answers, fresh map[s
 		fi, err := am.GetTokenByID(r.tokID[t])
 		tr := &truth{D: make([]bool, nReq)}
 		fresh[t] = tr
-		if err != nil || fi == nil || !fi.Enabled || (fi.ExpiresAt != nil && time.Now().After(*fi.ExpiresAt)) {
+		if err != nil || fi == nil || (fi.ExpiresAt != nil && time.Now().After(*fi.ExpiresAt)) {
 			continue
 		}
-		tr.Authn = true
+		if fi.Enabled {
+			tr.Authn = true
+		} else {
+			tr.Stored = true
+		}
 		r.env.Fresh.InvalidateAllCache()
 		for i := 0; i < nReq; i++ {
 			db, meas, perm := reqOf(i)
@@ -448,7 +473,11 @@ func runHistory(c *collector, tmp string, n int, mode string, h *history) {
 		return
 	}
 	defer os.RemoveAll(dir)
-	env, err := authkit.NewEnv(dir, mode, 5*time.Minute)
+	envMode := mode
+	if mode == "mixed" { // set-up and earlier mutators in direct mode, then a cluster apply on top
+		envMode = "direct"
+	}
+	env, err := authkit.NewEnv(dir, envMode, 5*time.Minute)
 	if err != nil {
 		c.infra("new env: " + err.Error())
 		return
@@ -506,7 +535,11 @@ func runHistory(c *collector, tmp string, n int, mode string, h *history) {
 				c.add(c.dr, "authentication-differs-from-Auth.tla:"+culprit+":"+mode, witness{Mode: mode, Seed: h.Seed, Ops: h.Ops[:step], Step: step, Token: t,
 					Fresh: fmt.Sprint(fr.Authn), Model: fmt.Sprint(exp.Authn)})
 			}
-			if !ca.authn || !fr.Authn {
+			if fr.Stored != exp.Stored {
+				c.add(c.dr, "stored-state-differs-from-Auth.tla:"+culprit+":"+mode, witness{Mode: mode, Seed: h.Seed, Ops: h.Ops[:step], Step: step, Token: t,
+					Fresh: fmt.Sprint(fr.Stored), Model: fmt.Sprint(exp.Stored)})
+			}
+			if !(ca.authn && fr.Authn) && !(ca.stored && fr.Stored) {
 				continue
 			}
 			for i := 0; i < nReq; i++ {
@@ -568,7 +601,7 @@ func (c *collector) infra(s string) {
 func main() {
 	in := flag.String("histories", "", "ndjson: one history per line (seed, init, ops, expect)")
 	outp := flag.String("out", "", "result json")
-	modes := flag.String("modes", "direct,apply", "")
+	modes := flag.String("modes", "direct,apply,mixed", "mixed = direct-mode history ending in a cluster apply (ReseedOrg)")
 	workers := flag.Int("workers", 4, "")
 	flag.Parse()
 	f, err := os.Open(*in)
@@ -635,7 +668,14 @@ func main() {
 		}()
 	}
 	for n, h := range hs {
+		reseed := false
+		for _, o := range h.Ops {
+			reseed = reseed || o.K == "ReseedOrg"
+		}
 		for _, m := range strings.Split(*modes, ",") {
+			if reseed != (m == "mixed") {
+				continue
+			}
 			c.mu.Lock()
 			stop := c.res.Infra != ""
 			c.mu.Unlock()
